@@ -16,9 +16,13 @@ package main
 import (
 	"encoding/json"
 	"fmt"
+	"go/ast"
+	"go/parser"
+	"go/token"
 	"os"
 	"path/filepath"
 	"sort"
+	"strconv"
 	"strings"
 
 	"verif/harness/vh"
@@ -159,7 +163,31 @@ func genSpec(r *vh.Rng, idx int, thorough bool) scenarioSpec {
 			}
 		}
 	}
+	if sp.BigAll == 0 && sp.ApplyConfigs == 0 && sp.IdleMs == 0 && !sp.Stall && len(sp.Reconfig) == 0 && sp.QueueCap == 0 && r.Chance(5) {
+		// the stall fault: the collector stops reading connection 0 after j frames until a write deadline has
+		// expired, then reads on; the rest of the script (closes, refusals) follows on the later connections
+		sp.BigAll = []int{600 << 10, 1200 << 10, 1500 << 10, 3 << 20}[r.Intn(4)]
+		sp.Big = 0
+		sp.TimeoutMs = 500 + r.Intn(400)
+		sp.Senders = []int{1, 1, 4}[r.Intn(3)]
+		sp.PreMax = 14
+		sp.Post = 4 + r.Intn(4)
+		rest := sp.Script
+		if len(rest) > 1 {
+			rest = rest[:1]
+		}
+		for i := range rest {
+			rest[i].RefuseBefore = 0
+			if rest[i].Frames > 2 {
+				rest[i].Frames = r.Intn(3)
+			}
+		}
+		sp.Script = append([]directive{{Stall: true, Frames: r.Intn(3)}}, rest...)
+	}
 	sp.Name = fmt.Sprintf("%s/%d senders/%d faults", sp.Mode, sp.Senders, len(sp.Script))
+	if len(sp.Script) > 0 && sp.Script[0].Stall {
+		sp.Name += fmt.Sprintf("/collector stalls, write timeout %d ms", sp.TimeoutMs)
+	}
 	if len(sp.Reconfig) > 0 {
 		sp.Name += fmt.Sprintf("/reconfigure %v", sp.Reconfig)
 	}
@@ -179,7 +207,28 @@ func genSpec(r *vh.Rng, idx int, thorough bool) scenarioSpec {
 }
 
 // fixed scenarios: the corners named in the property statement, always run
-func fixedSpecs(seed uint64) []scenarioSpec {
+func fixedSpecs(seed uint64, thorough bool, waitMs int) []scenarioSpec {
+	out := fixedSpecs0(seed)
+	// the collector stalls (no close, no reset): a write deadline expires mid-frame; frames smaller than
+	// the 2 MiB buffered writer fail in Flush (the connection stays), larger ones inside send() (Close)
+	out = append(out, stallSpec("direct", 1, 1500<<10, 1), stallSpec("direct", 4, 1200<<10, 0), stallSpec("queue", 1, 1500<<10, 1))
+	if thorough {
+		out = append(out, stallSpec("direct", 1, 3<<20, 0), stallSpec("direct", 1, 700<<10, 3), stallSpec("queue", 4, 1200<<10, 0))
+	}
+	if waitMs > 0 {
+		// idle longer than every internal wait before traffic (one scenario in the quick tier: it runs
+		// alongside the batch)
+		pre := []scenarioSpec{afterIdle("queue", 4, 6, waitMs, 1, true)}
+		if thorough {
+			pre = append(pre, afterIdle("queue", 1, 12, waitMs, 1, true), afterIdle("queue", 4, 8, waitMs, 2, false),
+				afterIdle("queue", 16, 4, waitMs, 1, true), afterIdle("direct", 4, 8, waitMs, 1, false))
+		}
+		out = append(pre, out...) // first, so that their idle time overlaps the rest of the batch
+	}
+	return out
+}
+
+func fixedSpecs0(seed uint64) []scenarioSpec {
 	mk := func(mode string, senders int, script []directive, post int) scenarioSpec {
 		return scenarioSpec{Mode: mode, Senders: senders, Script: script, PreMax: map[string]int{"direct": 300, "queue": 1500}[mode], Post: post, Seed: seed*977 + uint64(senders) + uint64(len(script))*31,
 			Name: fmt.Sprintf("fixed %s/%d senders/%d faults", mode, senders, len(script))}
@@ -234,9 +283,62 @@ func bigc(mode string, senders, size, frames, extra int) scenarioSpec {
 		Seed:   uint64(size + frames*17 + extra), Name: fmt.Sprintf("fixed %s/%d senders/%d MiB frames cut at %d+%d", mode, senders, size>>20, frames, extra)}
 }
 
+// internalWaitMs: the longest internal wait of the client, read from its source (the `…WaitTime`
+// constants of OneWayTcpClient.go: how long process() sits in Queue.GetTimeout, the flush interval).
+// An idle period "longer than every internal timeout" is this plus a margin.
+func internalWaitMs(repo string) (int, string) {
+	fset := token.NewFileSet()
+	f, err := parser.ParseFile(fset, filepath.Join(repo, "net", "oneway", "OneWayTcpClient.go"), nil, 0)
+	if err != nil {
+		return 0, err.Error()
+	}
+	best := 0
+	ast.Inspect(f, func(n ast.Node) bool {
+		vs, ok := n.(*ast.ValueSpec)
+		if !ok {
+			return true
+		}
+		for i, name := range vs.Names {
+			if !strings.HasSuffix(name.Name, "WaitTime") || i >= len(vs.Values) {
+				continue
+			}
+			if lit, ok := vs.Values[i].(*ast.BasicLit); ok && lit.Kind == token.INT {
+				if v, err := strconv.Atoi(lit.Value); err == nil && v > best {
+					best = v
+				}
+			}
+		}
+		return true
+	})
+	if best == 0 {
+		return 0, "no …WaitTime constant found in OneWayTcpClient.go"
+	}
+	return best, ""
+}
+
+// afterIdle: the client is idle for longer than every internal wait (k times), then packs arrive while
+// process() is busy (gate: its first makeData is held back while the others are queued) or back to back.
+func afterIdle(mode string, senders, perSender, waitMs, k int, gate bool) scenarioSpec {
+	sp := scenarioSpec{Mode: mode, Senders: senders, PreMax: 1500, Post: perSender, PreIdleMs: waitMs*k + 1200, Burst: true,
+		Stall: gate && mode == "queue", Seed: uint64(senders*61 + perSender + k*7 + len(mode))}
+	sp.Name = fmt.Sprintf("fixed %s/%d senders/idle %d ms > every internal wait (%d ms), then a burst", mode, senders, sp.PreIdleMs, waitMs)
+	if sp.Stall {
+		sp.Name += " against a busy consumer"
+	}
+	return sp
+}
+
+// stallSpec: the collector stops reading connection 0 after `frames` frames; with a short client Timeout
+// a write deadline expires inside a frame; the collector then reads on, on the same connection.
+func stallSpec(mode string, senders, size, frames int) scenarioSpec {
+	return scenarioSpec{Mode: mode, Senders: senders, BigAll: size, PreMax: 14, Post: 5, TimeoutMs: 600,
+		Script: []directive{{Stall: true, Frames: frames}},
+		Seed:   uint64(size + frames*19 + senders), Name: fmt.Sprintf("fixed %s/%d senders/%d KiB frames/collector stalls after %d frames, write timeout 600 ms, then reads on", mode, senders, size>>10, frames)}
+}
+
 func canon(o *observation, an *analysis) string {
 	b, _ := json.Marshal(o.Spec.Script)
-	return fmt.Sprintf("%s|%d|cap%d|big%d/%d|rc%v%v|idle%d|ac%d|%s|conns%d|delivered%d", o.Spec.Mode, o.Spec.Senders, o.Spec.QueueCap, o.Spec.Big, o.Spec.BigAll, o.Spec.Reconfig, o.Spec.Stall, o.Spec.IdleMs, o.Spec.ApplyConfigs, b, len(o.Conns), len(an.Delivered))
+	return fmt.Sprintf("%s|%d|cap%d|big%d/%d|rc%v%v|idle%d/%d|ac%d|%s|conns%d|delivered%d", o.Spec.Mode, o.Spec.Senders, o.Spec.QueueCap, o.Spec.Big, o.Spec.BigAll, o.Spec.Reconfig, o.Spec.Stall, o.Spec.IdleMs, o.Spec.PreIdleMs, o.Spec.ApplyConfigs, b, len(o.Conns), len(an.Delivered))
 }
 
 func main() {
@@ -254,7 +356,11 @@ func main() {
 	if env.Replay != "" {
 		specs, replayD42, replayD70, replayD71 = loadReplay(env.Replay)
 	} else {
-		specs = fixedSpecs(env.Seed)
+		waitMs, why := internalWaitMs(env.Repo)
+		if why != "" {
+			rep.Note("idle-longer-than-every-internal-wait scenarios not run: %s", why)
+		}
+		specs = fixedSpecs(env.Seed, env.Thorough, waitMs)
 		n := 150
 		if env.Thorough {
 			n = 800
